@@ -191,6 +191,18 @@ def run(o, ctx, tier, seed, replay=None):
         if why and len(o.violations) < 40:
             o.violations.append({"case": c, "impl": a[:300], "why": why})
     o.extra["known_class_user_te_without_chunked_cases"] = known
+    # `Status::of(code)` for every u16 (quick: all three-digit codes + a sample): the model's table lookup (Model/Status.lean over
+    # the extracted table) against the real function; the table's well-formedness is Props/C08Status
+    if replay is None:
+        codes = list(range(0, 1000)) + ([65535, 1000, 9999, 20800] if t == "quick" else list(range(1000, 65536)))
+        sl = ["STATUS %d" % c_ for c_ in codes]
+        si, sm = diff_run(o, ctx, sl, nontrivial=lambda c, a: 100 <= int(c.split()[1]) <= 599, tags=lambda c, a: "status:" + ("listed" if a.split()[-1] != "e" else "unlisted"))
+        for c, a in zip(sl, si):
+            p_ = a.split()
+            if len(p_) != 3 or p_[1] != c.split()[1]:
+                o.violations.append({"case": c, "impl": a[:80], "why": "Status::of(%s) does not carry the code it was asked for" % c.split()[1]})
+            elif any(b_ in (13, 10) for b_ in unhex(p_[2])):
+                o.violations.append({"case": c, "impl": a[:80], "why": "the reason phrase of Status::of(%s) contains CR/LF" % c.split()[1]})
 
 
 def known_c08(o, ctx, k):
